@@ -14,6 +14,9 @@ import time
 
 MODNAME = "c15mod"
 REFNAME = "c15ref"
+# The tree under test.  Always /repo for ./check; a scratch git worktree can be substituted when a
+# candidate patch or a seeded defect must be examined without touching /repo.
+TREE = os.environ.get("VERIF_C15_TREE", "/repo").rstrip("/")
 
 SETUP = """\
 from setuptools import setup
@@ -26,7 +29,7 @@ setup(name='c15_build',
 
 def build_env() -> dict[str, str]:
     env = dict(os.environ)
-    env["PYTHONPATH"] = "/repo"
+    env["PYTHONPATH"] = TREE
     env["PYTHONDONTWRITEBYTECODE"] = "1"
     env.pop("MYPYC_OPT_LEVEL", None)
     env.pop("CFLAGS", None)
@@ -60,4 +63,4 @@ def build(job: dict) -> dict:
                     lib_rt = tok[2:]
             break
     return {"ok": ok, "rc": rc, "seconds": round(secs, 2), "log": out[-6000:], "opt": job["opt"], "dir": d,
-            "lib_rt": lib_rt}
+            "lib_rt": lib_rt, "tag": job.get("tag", "")}
